@@ -27,13 +27,15 @@ def structure(kind):
 
 
 # ------------------------------------------------------------------ admissibility, from the TYPES
-def expressible(kind, shape):
+def expressible(kind, shape, op="resize"):
     """does the class offer a resize signature that can carry this request at all"""
     sk, _ = structure(kind)
     if sk == "cs":
         return False                      # constant shape: resize is not declared (SFINAE) / fixed_ndarray has none
     if kind == "hybrid_ndarray":
-        return len(shape) == 2            # resize(const std::array<size_t,2>&)
+        return len(shape) == 2            # resize(const std::array<size_t,2>&) / exactly two variadic arguments
+    if op == "resize_v" and sk == "ls":
+        return len(shape) == len(CLIP)    # tuple shape: another number of variadic arguments does not compile
     return True
 
 
@@ -122,7 +124,7 @@ def m_apply(kind, state, step):
     info = {}
     if op in RESIZE_OPS:
         k, shp = step[1], list(step[2])
-        if not expressible(kind, shp):
+        if not expressible(kind, shp, op):
             info["r"] = "inexpressible"
         elif admissible(kind, shp):
             info["r"] = True
@@ -182,7 +184,7 @@ def step_finding(kind, step, before):
     sk, _ = structure(kind)
     if step[0] in RESIZE_OPS:
         shp = list(step[2])
-        if expressible(kind, shp) and not admissible(kind, shp) and mutates_when_refused(kind, before[step[1]].shape, shp):
+        if expressible(kind, shp, step[0]) and not admissible(kind, shp) and mutates_when_refused(kind, before[step[1]].shape, shp):
             return "C20-refused-resize-not-atomic"
     elif step[0] == "cast_kind":
         if kind not in LEGACY and sk == "hs" and step[2].startswith("ls"):
